@@ -153,9 +153,19 @@ def sendInput (cfg : Cfg) (dev : σ → Bytes → σ × Bytes) (input : Bytes) (
       | none => none
       | some (buf, w2) => some ((buf, processOutput cfg buf stripPrompt), (w2, s2.2))
 
-/-- one event of `send_inputs_interact` (651-678): (input, expected prompt, hidden) -/
+/-- `_interaction_complete` (base_channel.py): the read of one event ended on one of the
+    interaction complete patterns rather than on the response expected for that event -/
+def interactionComplete (cfg : Cfg) (resp : Bytes) (complete : List Bytes) (b : Bytes) : Bool :=
+  if complete.isEmpty then false
+  else
+    let sb := processReadBuf cfg.depth b
+    if explicitSeen cfg resp sb then false
+    else complete.any (fun p => explicitSeen cfg p sb)
+
+/-- one event of `send_inputs_interact`: (input, expected prompt, hidden); the Bool says that the
+    interactive session is over (no further inputs are to be sent) -/
 def interactEvent (cfg : Cfg) (dev : σ → Bytes → σ × Bytes) (complete : List Bytes)
-    (ev : Bytes × Bytes × Bool) (acc : Bytes) (s : Wire × σ) : Option (Bytes × (Wire × σ)) :=
+    (ev : Bytes × Bytes × Bool) (acc : Bytes) (s : Wire × σ) : Option (Bytes × (Wire × σ) × Bool) :=
   let (input, resp, hidden) := ev
   let s1 := Wire.write dev s input
   let r1 : Option (Bytes × Wire) :=
@@ -167,7 +177,7 @@ def interactEvent (cfg : Cfg) (dev : σ → Bytes → σ × Bytes) (complete : L
     let s2 := Wire.write dev (w1, s1.2) cfg.ret
     match Wire.readUntil (explicitAnySeen cfg (resp :: complete)) s2.1 with
     | none => none
-    | some (b2, w2) => some (acc ++ b1 ++ b2, (w2, s2.2))
+    | some (b2, w2) => some (acc ++ b1 ++ b2, (w2, s2.2), interactionComplete cfg resp complete b2)
 
 def interactLoop (cfg : Cfg) (dev : σ → Bytes → σ × Bytes) (complete : List Bytes) :
     List (Bytes × Bytes × Bool) → Bytes → (Wire × σ) → Option (Bytes × (Wire × σ))
@@ -175,7 +185,7 @@ def interactLoop (cfg : Cfg) (dev : σ → Bytes → σ × Bytes) (complete : Li
   | ev :: evs, acc, s =>
     match interactEvent cfg dev complete ev acc s with
     | none => none
-    | some (acc', s') => interactLoop cfg dev complete evs acc' s'
+    | some (acc', s', done) => if done then some (acc', s') else interactLoop cfg dev complete evs acc' s'
 
 /-- `send_inputs_interact` (577-685) -/
 def sendInputsInteract (cfg : Cfg) (dev : σ → Bytes → σ × Bytes) (events : List (Bytes × Bytes × Bool))
